@@ -9,7 +9,6 @@ Open Scope N_scope.
 Open Scope list_scope.
 
 Local Arguments uri_of : simpl never.
-Local Arguments url_string_eqb : simpl never.
 Local Arguments trust_domain : simpl never.
 
 (* ------------------------------------------------------------------ small facts *)
@@ -57,35 +56,33 @@ Definition coerce (e : ca_env) (id : cert_id) : cert_id :=
 Definition agent_cert_uri (e : ca_env) (u : url) (id : cert_id) : url :=
   match id with
   | IdAgent host ap dc agent =>
-      if (host =? trust_domain e)%string then u
-      else if url_string_eqb (uri_of id) u then uri_of (coerce e id) else u
+      if (host =? trust_domain e)%string then u else uri_of (coerce e id)
   | _ => u
   end.
 
 Lemma authorize_id_ok e az id :
-  authorize_id e az id = Ok tt ->
-  granted az id /\ (is_agent id = false -> id_dc id = e_dc e).
+  authorize_id e az id = Ok tt -> granted az id /\ id_dc id = e_dc e.
 Proof.
   destruct id; cbn [authorize_id granted is_agent id_dc]; intros H.
   - destruct (az_service_write az svc) eqn:A; cbn in H; try discriminate.
     destruct (dc =? e_dc e)%string eqn:D; cbn in H; try discriminate.
-    split; [reflexivity | intros _; apply streqb_eq; exact D].
+    split; [reflexivity | apply streqb_eq; exact D].
   - destruct (az_node_write az agent) eqn:A; cbn in H; try discriminate.
-    split; [reflexivity | discriminate].
+    destruct (dc =? e_dc e)%string eqn:D; cbn in H; try discriminate.
+    split; [reflexivity | apply streqb_eq; exact D].
   - destruct (az_mesh_write az) eqn:A; cbn in H; try discriminate.
     destruct (dc =? e_dc e)%string eqn:D; cbn in H; try discriminate.
-    split; [reflexivity | intros _; apply streqb_eq; exact D].
+    split; [reflexivity | apply streqb_eq; exact D].
   - destruct (az_acl_write az) eqn:A; cbn in H; try discriminate.
     destruct (dc =? e_dc e)%string eqn:D; cbn in H; try discriminate.
-    split; [reflexivity | intros _; apply streqb_eq; exact D].
+    split; [reflexivity | apply streqb_eq; exact D].
   - discriminate.
 Qed.
 
 Lemma authorize_ok e az c id :
   authorize e az c = Ok id ->
   exists u, csr_uris c = [u] /\ csr_emails c = 0 /\ parse_cert_uri u = Ok id /\
-            validate_supported id = true /\ granted az id /\
-            (is_agent id = false -> id_dc id = e_dc e).
+            validate_supported id = true /\ granted az id /\ id_dc id = e_dc e.
 Proof.
   unfold authorize. destruct (csr_uris c) as [|u [|u2 t]]; try discriminate.
   destruct (csr_emails c =? 0) eqn:Em; cbn [negb]; try discriminate.
@@ -99,17 +96,17 @@ Qed.
 
 Lemma sign_uris_ok e u id uris :
   sign_uris e [u] id = Ok uris ->
-  validate_supported id = true ->
+  parse_cert_uri u = Ok id ->
   (is_agent id = false -> uris = [u] /\ lower (id_host id) = trust_domain e) /\
   (is_agent id = true -> uris = [agent_cert_uri e u id]).
 Proof.
-  destruct id; cbn [sign_uris is_agent id_host validate_supported]; intros H V.
+  destruct id; cbn [sign_uris is_agent id_host]; intros H Hp.
   - unfold can_sign in H. destruct (lower host =? trust_domain e)%string eqn:C; try discriminate.
     injection H as <-. split; [|discriminate]. intros _. split; [reflexivity | apply streqb_eq; exact C].
   - split; [discriminate|]. intros _. cbn [agent_cert_uri coerce].
     destruct (host =? trust_domain e)%string eqn:Hh; cbn [negb] in H; injection H as <-; cbn [map].
     + reflexivity.
-    + destruct (url_string_eqb (uri_of (IdAgent host ap dc agent)) u); reflexivity.
+    + unfold same_agent. rewrite Hp, !String.eqb_refl. reflexivity.
   - unfold can_sign in H. destruct (lower host =? trust_domain e)%string eqn:C; try discriminate.
     injection H as <-. split; [|discriminate]. intros _. split; [reflexivity | apply streqb_eq; exact C].
   - unfold can_sign in H. destruct (lower host =? trust_domain e)%string eqn:C; try discriminate.
@@ -122,9 +119,8 @@ Theorem issue_sound e az c s crt s' :
   sign_request e az c s = Ok (crt, s') ->
   exists u id,
     csr_uris c = [u] /\ csr_emails c = 0 /\ parse_cert_uri u = Ok id /\
-    validate_supported id = true /\ granted az id /\
-    (is_agent id = false ->
-       id_dc id = e_dc e /\ lower (id_host id) = trust_domain e /\ c_uris crt = [u]) /\
+    validate_supported id = true /\ granted az id /\ id_dc id = e_dc e /\
+    (is_agent id = false -> lower (id_host id) = trust_domain e /\ c_uris crt = [u]) /\
     (is_agent id = true -> c_uris crt = [agent_cert_uri e u id]) /\
     c_is_ca crt = false /\ c_dns crt = csr_dns c /\ c_ips crt = csr_ips c /\
     c_serial crt = next_serial s /\ s' = incr_serial s.
@@ -133,24 +129,17 @@ Proof.
   destruct (authorize_ok _ _ _ _ A) as (u & Hu & Hem & Hp & Hv & Hg & Hd).
   rewrite Hu. destruct (sign_uris e [u] id) as [uris|x] eqn:S; try discriminate.
   unfold provider_sign. intros H; injection H as <- <-.
-  destruct (sign_uris_ok _ _ _ _ S Hv) as [Hn Ha].
+  destruct (sign_uris_ok _ _ _ _ S Hp) as [Hn Ha].
   exists u, id. cbn [c_uris c_is_ca c_dns c_ips c_serial].
   split; [reflexivity|]. split; [exact Hem|]. split; [exact Hp|]. split; [exact Hv|].
-  split; [exact Hg|]. split.
-  { intros Hna. destruct (Hn Hna) as [-> Hl]. repeat split; [apply Hd; exact Hna | exact Hl]. }
+  split; [exact Hg|]. split; [exact Hd|]. split.
+  { intros Hna. destruct (Hn Hna) as [-> Hl]. split; [exact Hl | reflexivity]. }
   split; [exact Ha|]. repeat split.
 Qed.
 
-(* The class of requests for which the datacenter / trust-domain clauses fail (agents only). *)
-Definition agent_exception (e : ca_env) (u : url) (id : cert_id) : bool :=
-  match id with
-  | IdAgent host _ dc _ =>
-      negb (dc =? e_dc e)%string
-      || (negb (host =? trust_domain e)%string && negb (url_string_eqb (uri_of id) u))
-  | _ => false
-  end.
-
-(* the clauses of the property about the identity in the certificate *)
+(* the clauses of the property about the identity in the certificate: this datacenter, and a
+   certificate URI in this trust domain that is the requested URI or (agents) the identity
+   printed with the host coerced *)
 Definition identity_clauses (e : ca_env) (u : url) (id : cert_id) (crt : cert) : Prop :=
   id_dc id = e_dc e /\
   exists u', c_uris crt = [u'] /\ lower (u_host u') = trust_domain e /\
@@ -209,32 +198,29 @@ Proof.
   repeat match type of H with context [match ?x with _ => _ end] => destruct x; try discriminate end.
 Qed.
 
-(* C12_issue_sound_partial: outside the agent exception the full statement holds. *)
-Theorem issue_sound_partial e az c s crt s' :
+(* C12_issue_sound in the property's wording: the identity clauses hold for EVERY issued
+   certificate, agents included. *)
+Theorem issue_sound_full e az c s crt s' :
   sign_request e az c s = Ok (crt, s') ->
   exists u id,
     csr_uris c = [u] /\ csr_emails c = 0 /\ parse_cert_uri u = Ok id /\
     validate_supported id = true /\ granted az id /\ c_is_ca crt = false /\
-    c_serial crt = next_serial s /\
-    (agent_exception e u id = false -> identity_clauses e u id crt).
+    c_serial crt = next_serial s /\ identity_clauses e u id crt.
 Proof.
-  intros H. destruct (issue_sound _ _ _ _ _ _ H) as (u & id & Hu & Hem & Hp & Hv & Hg & Hn & Ha & Hca & _ & _ & Hser & _).
+  intros H. destruct (issue_sound _ _ _ _ _ _ H) as (u & id & Hu & Hem & Hp & Hv & Hg & Hd & Hn & Ha & Hca & _ & _ & Hser & _).
   exists u, id. do 7 (split; [assumption|]).
-  intros Hex. unfold identity_clauses.
+  unfold identity_clauses. split; [exact Hd|].
   destruct (is_agent id) eqn:Ag.
-  - destruct id; try discriminate. cbn [agent_exception] in Hex.
-    apply orb_false_iff in Hex as [Hdc Hrw]. apply negb_false_true in Hdc. apply streqb_eq in Hdc.
-    split; [exact Hdc|].
+  - destruct id; try discriminate.
     specialize (Ha eq_refl). cbn [agent_cert_uri coerce] in Ha.
     pose proof (parse_agent_host _ _ _ _ _ Hp) as Hh.
     destruct (host =? trust_domain e)%string eqn:Ht.
     + exists u. split; [exact Ha|]. apply streqb_eq in Ht. split; [|left; reflexivity].
       rewrite <- Hh, Ht. unfold trust_domain. apply lower_idem.
-    + cbn [negb andb] in Hrw. apply negb_false_true in Hrw. rewrite Hrw in Ha.
-      exists (uri_of (IdAgent (trust_domain e) ap dc agent)). split; [exact Ha|].
+    + exists (uri_of (IdAgent (trust_domain e) ap dc agent)). split; [exact Ha|].
       split; [cbn [uri_of fresh_url u_host]; unfold trust_domain; apply lower_idem|].
       right. split; reflexivity.
-  - destruct (Hn eq_refl) as (Hd & Hh & Hc). split; [exact Hd|].
+  - destruct (Hn eq_refl) as (Hh & Hc).
     exists u. split; [exact Hc|]. split; [|left; reflexivity].
     rewrite <- Hh. f_equal. symmetry. apply (parse_host _ _ Hp Ag).
     intros cl dom ->. cbn in Hv. discriminate.
@@ -269,7 +255,7 @@ Qed.
 Lemma sign_serial e az c s crt s1 :
   sign_request e az c s = Ok (crt, s1) -> c_serial crt = next_serial s /\ last_serial s1 = next_serial s.
 Proof.
-  intros H. destruct (issue_sound _ _ _ _ _ _ H) as (u & id & _ & _ & _ & _ & _ & _ & _ & _ & _ & _ & Hs & ->).
+  intros H. destruct (issue_sound _ _ _ _ _ _ H) as (u & id & _ & _ & _ & _ & _ & _ & _ & _ & _ & _ & _ & Hs & ->).
   split; [exact Hs | reflexivity].
 Qed.
 
@@ -310,16 +296,9 @@ Definition active_count (rs : list root) : nat := List.length (filter r_active r
 
 Definition one_active (s : store) : Prop := s_roots s = [] \/ active_count (s_roots s) = 1%nat.
 
-(* a command as the leader builds it: the roots of one command have pairwise distinct IDs *)
-Definition op_wf (o : op) : Prop :=
-  match o with
-  | OpSetRoots _ rs | OpSetRootsAndConfig _ rs _ => NoDup (map fst rs)
-  | _ => True
-  end.
-
 Inductive Reach : store -> Prop :=
 | ReachInit : Reach empty_store
-| ReachStep s idx o : Reach s -> op_wf o -> Reach (fst (step s idx o)).
+| ReachStep s idx o : Reach s -> Reach (fst (step s idx o)).
 
 Lemma insert_root_fresh r acc :
   ~ In (r_id r) (map r_id acc) -> insert_root r acc = acc ++ [r].
@@ -344,11 +323,97 @@ Proof.
       intros Hin. apply H. apply in_or_app. left. exact Hin.
 Qed.
 
-Lemma active_count_stamp old idx rs :
-  active_count (map (stamp old idx) rs) = count_active rs.
+(* ---- counting the active rows after "delete all, insert each" with repeated IDs ---- *)
+
+Definition cnt (Q : root -> bool) (l : list root) : nat := List.length (filter Q l).
+
+Lemma cnt_ext Q Q' l : (forall x, In x l -> Q x = Q' x) -> cnt Q l = cnt Q' l.
 Proof.
-  unfold active_count, count_active. induction rs as [|ri rs IH]; [reflexivity|].
-  cbn [map filter]. cbn [stamp r_active]. destruct (snd ri); cbn [List.length]; rewrite IH; reflexivity.
+  unfold cnt. induction l as [|x l IH]; intros H; [reflexivity|]. cbn [filter].
+  rewrite (H x (or_introl eq_refl)). destruct (Q' x); cbn [List.length]; rewrite IH; auto; intros y Hy; apply H; right; exact Hy.
+Qed.
+
+(* inserting a row: the row with the same ID (if any) no longer counts, the new row does *)
+Lemma cnt_insert Q r acc : NoDup (map r_id acc) ->
+  cnt Q (insert_root r acc) =
+  (cnt (fun x => Q x && negb (r_id x =? r_id r)%string) acc + (if Q r then 1 else 0))%nat.
+Proof.
+  unfold cnt. induction acc as [|x acc IH]; intros Hnd; cbn [insert_root filter List.length].
+  - destruct (Q r); reflexivity.
+  - inversion Hnd as [|? ? Hx Hnd']; subst. destruct (r_id x =? r_id r)%string eqn:E.
+    + cbn [filter]. rewrite andb_false_r.
+      assert (Hsame : filter Q acc = filter (fun y => Q y && negb (r_id y =? r_id r)%string) acc).
+      { apply filter_ext_in. intros y Hy. destruct (r_id y =? r_id r)%string eqn:Ey; [|rewrite andb_true_r; reflexivity].
+        exfalso. apply String.eqb_eq in E, Ey. apply Hx. rewrite E, <- Ey. apply in_map. exact Hy. }
+      rewrite <- Hsame. destruct (Q r); cbn [List.length]; lia.
+    + cbn [filter]. rewrite andb_true_r. destruct (Q x); cbn [List.length]; rewrite (IH Hnd'); lia.
+Qed.
+
+Lemma insert_root_ids r acc id :
+  In id (map r_id (insert_root r acc)) <-> id = r_id r \/ In id (map r_id acc).
+Proof.
+  induction acc as [|x acc IH]; cbn [insert_root map In].
+  - intuition.
+  - destruct (r_id x =? r_id r)%string eqn:E; cbn [map In].
+    + apply String.eqb_eq in E. rewrite E. intuition.
+    + rewrite IH. intuition.
+Qed.
+
+Lemma insert_root_nodup r acc : NoDup (map r_id acc) -> NoDup (map r_id (insert_root r acc)).
+Proof.
+  induction acc as [|x acc IH]; intros Hnd; cbn [insert_root map].
+  - constructor; [intros [] | constructor].
+  - inversion Hnd as [|? ? Hx Hnd']; subst. destruct (r_id x =? r_id r)%string eqn:E; cbn [map].
+    + apply String.eqb_eq in E. rewrite <- E. constructor; assumption.
+    + constructor; [|apply IH; exact Hnd'].
+      intros Hin. apply insert_root_ids in Hin as [Hin|Hin]; [|contradiction].
+      apply String.eqb_neq in E. congruence.
+Qed.
+
+Definition id_in (rs : list root_in) (id : string) : bool :=
+  existsb (fun rj => (fst rj =? id)%string) rs.
+
+(* entries of the list that are active and not overwritten by a later entry with the same ID *)
+Fixpoint eff_active (rs : list root_in) : nat :=
+  match rs with
+  | [] => 0%nat
+  | ri :: t => ((if snd ri && negb (id_in t (fst ri)) then 1 else 0) + eff_active t)%nat
+  end.
+
+Lemma eff_active_count rs : active_overwritten rs = false -> eff_active rs = count_active rs.
+Proof.
+  unfold count_active. induction rs as [|ri rs IH]; [reflexivity|].
+  cbn [active_overwritten eff_active filter]. intros H. apply orb_false_iff in H as [H1 H2].
+  rewrite (IH H2). fold (id_in rs (fst ri)) in H1.
+  destruct (snd ri); cbn [andb] in *; [rewrite H1|]; reflexivity.
+Qed.
+
+Lemma fold_insert_count old idx rs : forall acc, NoDup (map r_id acc) ->
+  cnt r_active (fold_left (fun a ri => insert_root (stamp old idx ri) a) rs acc) =
+  (cnt (fun x => r_active x && negb (id_in rs (r_id x))) acc + eff_active rs)%nat.
+Proof.
+  induction rs as [|ri rs IH]; intros acc Hnd; cbn [fold_left eff_active].
+  - rewrite Nat.add_0_r. apply cnt_ext. intros x _. cbn [id_in existsb negb]. rewrite andb_true_r. reflexivity.
+  - rewrite IH by (apply insert_root_nodup; exact Hnd).
+    rewrite cnt_insert by exact Hnd. cbn [stamp r_active r_id].
+    rewrite (cnt_ext _ (fun x => r_active x && negb (id_in (ri :: rs) (r_id x))) acc).
+    + lia.
+    + intros x _. cbn [id_in existsb]. fold (id_in rs (r_id x)).
+      rewrite (String.eqb_sym (r_id x) (fst ri)).
+      destruct (r_active x), (id_in rs (r_id x)), (fst ri =? r_id x)%string; reflexivity.
+Qed.
+
+Lemma cas_yes_one_active s idx cidx rs rs' :
+  root_check_and_set s idx cidx rs = CasYes rs' -> active_count rs' = 1%nat.
+Proof.
+  unfold root_check_and_set. intros H.
+  destruct (Nat.eqb (count_active rs) 1) eqn:C; cbn [negb] in H; try discriminate.
+  destruct (active_overwritten rs) eqn:O; try discriminate.
+  destruct (s_roots_idx s =? cidx) eqn:I; cbn [negb] in H; try discriminate.
+  match type of H with (if ?b then _ else _) = _ => destruct b; try discriminate end.
+  injection H as <-. change (active_count ?l) with (cnt r_active l).
+  rewrite fold_insert_count by constructor. unfold cnt at 1. cbn [filter List.length].
+  rewrite (eff_active_count _ O). apply Nat.eqb_eq. exact C.
 Qed.
 
 Lemma cas_yes_nodup s idx cidx rs rs' :
@@ -357,40 +422,40 @@ Lemma cas_yes_nodup s idx cidx rs rs' :
 Proof.
   unfold root_check_and_set. intros Hnd H.
   destruct (Nat.eqb (count_active rs) 1) eqn:C; cbn [negb] in H; try discriminate.
+  destruct (active_overwritten rs); try discriminate.
   destruct (s_roots_idx s =? cidx) eqn:I; cbn [negb] in H; try discriminate.
-  destruct (existsb _ rs); try discriminate.
+  match type of H with (if ?b then _ else _) = _ => destruct b; try discriminate end.
   injection H as <-. rewrite fold_insert_nodup by (cbn [map app]; exact Hnd).
   repeat split; [apply Nat.eqb_eq; exact C | apply N.eqb_eq; exact I].
 Qed.
 
-Lemma step_one_active s idx o : op_wf o -> one_active s -> one_active (fst (step s idx o)).
+Lemma step_one_active s idx o : one_active s -> one_active (fst (step s idx o)).
 Proof.
-  intros Hwf Hinv. destruct o; cbn [step op_wf] in *;
+  intros Hinv. destruct o; cbn [step] in *;
     try (repeat match goal with |- context [match ?x with _ => _ end] => destruct x end; exact Hinv).
   - destruct (root_check_and_set s idx cidx rs) as [x| |rs'] eqn:C; try exact Hinv.
-    destruct (cas_yes_nodup _ _ _ _ _ Hwf C) as (-> & Hc & _).
-    right. cbn [fst s_roots]. rewrite active_count_stamp. exact Hc.
+    right. cbn [fst s_roots]. apply (cas_yes_one_active _ _ _ _ _ C).
   - destruct (root_check_and_set s idx cidx rs) as [x| |rs'] eqn:C; try exact Hinv.
-    destruct (cas_yes_nodup _ _ _ _ _ Hwf C) as (-> & Hc & _).
     destruct (config_index_ok s (gi_modify cfg)); [|exact Hinv].
-    right. cbn [fst s_roots]. rewrite active_count_stamp. exact Hc.
+    right. cbn [fst s_roots]. apply (cas_yes_one_active _ _ _ _ _ C).
 Qed.
 
-(* every reachable state has no roots or exactly one active root *)
+(* every reachable state has no roots or exactly one active root - for ALL commands, root lists
+   with repeated IDs included *)
 Theorem reach_one_active s : Reach s -> one_active s.
 Proof.
-  induction 1 as [|s idx o _ IH Hwf].
+  induction 1 as [|s idx o _ IH].
   - left. reflexivity.
   - apply step_one_active; assumption.
 Qed.
 
-(* Without the distinct-ID condition the invariant fails: the active-flag count is taken over
-   the command's list, but rows with one ID overwrite each other. *)
-Lemma one_active_refuted_witness :
-  let s := fst (step empty_store 1 (OpSetRoots 0 [("a", true); ("a", false)])) in
-  snd (step empty_store 1 (OpSetRoots 0 [("a", true); ("a", false)])) = OBool true /\
-  s_roots s = [Root "a" false 1 1] /\ active_count (s_roots s) = 0%nat.
-Proof. vm_compute. repeat split. Qed.
+(* the list that used to leave the set without an active root is refused and changes nothing *)
+Lemma active_overwritten_refused :
+  step empty_store 1 (OpSetRoots 0 [("a", true); ("a", false)]) = (empty_store, OErr EActiveOverwritten) /\
+  (* while the list the leader emits when only the intermediates of root "a" change is accepted *)
+  step empty_store 1 (OpSetRoots 0 [("a", false); ("a", true)]) =
+    (Store [Root "a" true 1 1] 1 None [] 0 None, OBool true).
+Proof. vm_compute. split; reflexivity. Qed.
 
 (* ---- atomicity ---- *)
 
@@ -465,6 +530,7 @@ Lemma cas_yes_replaced s idx cidx rs rs' :
 Proof.
   intros H. pose proof H as H0. unfold root_check_and_set in H.
   destruct (Nat.eqb (count_active rs) 1) eqn:C; cbn [negb] in H; try discriminate.
+  destruct (active_overwritten rs); try discriminate.
   destruct (s_roots_idx s =? cidx) eqn:I; cbn [negb] in H; try discriminate.
   match type of H with (if ?b then _ else _) = _ => destruct b; try discriminate end.
   injection H as <-. split; [apply N.eqb_eq; exact I|]. split; [apply Nat.eqb_eq; exact C|].
@@ -477,27 +543,30 @@ Qed.
 
 Lemma cas_mismatch s idx cidx rs :
   s_roots_idx s <> cidx ->
-  root_check_and_set s idx cidx rs = CasNo \/ root_check_and_set s idx cidx rs = CasErr EOneActive.
+  root_check_and_set s idx cidx rs = CasNo \/ root_check_and_set s idx cidx rs = CasErr EOneActive
+  \/ root_check_and_set s idx cidx rs = CasErr EActiveOverwritten.
 Proof.
   intros Hne. unfold root_check_and_set.
-  destruct (Nat.eqb (count_active rs) 1); cbn [negb]; [|right; reflexivity].
+  destruct (Nat.eqb (count_active rs) 1); cbn [negb]; [|right; left; reflexivity].
+  destruct (active_overwritten rs); [right; right; reflexivity|].
   destruct (s_roots_idx s =? cidx) eqn:I; [apply N.eqb_eq in I; contradiction|].
   left. reflexivity.
 Qed.
 
 (* A set-roots command replaces the whole set and answers true, or changes nothing at all and
-   does not answer true; with a non-matching index it changes nothing and answers false (or the
-   one-active error). *)
+   does not answer true; with a non-matching index it changes nothing and answers false (or one
+   of the two errors about the list itself). *)
 Theorem set_roots_atomic s idx cidx rs s' r :
   step s idx (OpSetRoots cidx rs) = (s', r) ->
   (r = OBool true /\ s_roots_idx s = cidx /\ count_active rs = 1%nat /\
    replaced_by (s_roots s) idx rs (s_roots s') /\ s_roots_idx s' = idx /\ same_but_roots s s')
-  \/ (s' = s /\ r <> OBool true /\ (s_roots_idx s <> cidx -> r = OBool false \/ r = OErr EOneActive)).
+  \/ (s' = s /\ r <> OBool true /\
+      (s_roots_idx s <> cidx -> r = OBool false \/ r = OErr EOneActive \/ r = OErr EActiveOverwritten)).
 Proof.
   cbn [step]. destruct (root_check_and_set s idx cidx rs) as [x| |rs'] eqn:C; intros H; injection H as <- <-.
   - right. split; [reflexivity|]. split; [discriminate|]. intros Hne.
-    destruct (cas_mismatch s idx cidx rs Hne) as [E|E]; rewrite E in C; [discriminate|].
-    injection C as <-. right. reflexivity.
+    destruct (cas_mismatch s idx cidx rs Hne) as [E|[E|E]]; rewrite E in C; [discriminate| |];
+      injection C as <-; right; [left | right]; reflexivity.
   - right. split; [reflexivity|]. split; [discriminate|]. intros _. left. reflexivity.
   - left. destruct (cas_yes_replaced _ _ _ _ _ C) as (Hi & Hc & Hr).
     split; [reflexivity|]. split; [exact Hi|]. split; [exact Hc|]. split; [exact Hr|].
